@@ -12,3 +12,21 @@ pub mod sqltext;
 
 pub use c23::C23;
 pub use c24::C24;
+
+/// Append every failure that is not an open known finding to `$VERIF_ROOT/evidence/<ID>.failures.log`
+/// (signature, tab, case JSON). A failure that does not reproduce after shrinking leaves no other
+/// trace (the runner only says "minimal case did not fail again").
+pub fn log_unknown_failure<C: serde::Serialize>(id: &str, v: &vcore::Verdict, case: &C) {
+    if let vcore::Verdict::Fail { sig, .. } = v {
+        if vcore::kf::is_open_global(sig) {
+            return;
+        }
+        let root = std::env::var("VERIF_ROOT").unwrap_or_else(|_| "/verif".into());
+        let path = std::path::Path::new(&root).join("evidence").join(format!("{}.failures.log", id));
+        use std::io::Write;
+        if let Ok(mut fh) = std::fs::OpenOptions::new().create(true).append(true).open(path) {
+            let js = serde_json::to_string(case).unwrap_or_default();
+            let _ = writeln!(fh, "{}\t{}", sig, vcore::runner::truncate(&js, 20000));
+        }
+    }
+}
